@@ -211,7 +211,8 @@ TDone ==
                                              rec |-> ToS(HdrsOf(s, iv.T0)), recok |-> TRUE, unsure |-> FALSE]]
                 ELSE L
         /\ F' = IF ok THEN F \ {i} ELSE F \cup {i}
-        /\ FT' = IF ok THEN FT \ {i} ELSE IF Len(E.wrote) > 0 THEN FT \cup {i} ELSE FT \ {i}
+        \* (FT: the failing command rewrote outputs - signature of KF-FAIL-TOUCHED; a depfile alone does not count)
+        /\ FT' = IF ok THEN FT \ {i} ELSE IF \E k \in DOMAIN E.wrote : E.wrote[k].n \in Outs(s) THEN FT \cup {i} ELSE FT \ {i}
   /\ UNCHANGED <<meta, g, prev, relax, taint, afterCrash, tw, viol, stats>> /\ Step
 
 TInterrupt ==
